@@ -70,6 +70,10 @@ func (g *docGen) newVar(t string, withDefault string) string {
 func (g *docGen) value(t *TRef, depth int) string {
 	r := g.r
 	if g.fault("wrong-literal-kind", 40) {
+		if r.Chance(1, 3) {
+			// a multi-line block string where something else is expected
+			return "\"\"\"\n    first line\n      second line\n    \"\"\""
+		}
 		switch t.Base() {
 		case "Int", "Float":
 			return `"notanumber"`
